@@ -751,6 +751,10 @@ def rules(ctx):
     r11_sources_standardised_per_source(ctx)
     r12_table_refusals_look_at_documented_columns(ctx)
     r13_features_are_a_list(ctx)
+    # "every design that satisfies the requirements runs to completion" - also when it is submitted a second time: building the algorithm never
+    # takes anything out of the design dictionary the caller passed (same rule as C13.R4)
+    from .c13 import r4_inputs
+    r4_inputs(ctx, callgraph(ctx), rid="C18.R14")
     # whether a design is accepted depends on the design alone: the tables of requirements / defaults of the class are never written
     # (same rule as C13.R5, restricted to the simulation package)
     from .c13 import r5_shared_defaults
